@@ -47,14 +47,21 @@ Definition hash_hmget (fs : list bytes) (h : hashv) : list (option bytes) :=
 Definition hash_hsetnx (f v : bytes) (h : hashv) : bool * hashv :=
   if fm_mem f h then (false, h) else (true, fst (fm_set f v h)).
 
-(* HScan(cursor, match, count): the Scan callback with its position counter i *)
-Fixpoint hash_hscan_aux (cursor count : Z) (pat : bytes) (i : Z) (h : hashv) : list (bytes * bytes) :=
+(* HScan(cursor, match, count): the Scan callback with its position counter i; returns the
+   counter it reached and the selected fields *)
+Fixpoint hash_hscan_aux (cursor count : Z) (pat : bytes) (i : Z) (h : hashv) : Z * list (bytes * bytes) :=
   match h with
-  | [] => []
+  | [] => (i, [])
   | (k, v) :: r =>
       let hit := glob_match pat k && (i >=? cursor) in
-      let rest := if i + 1 <? cursor + count then hash_hscan_aux cursor count pat (i + 1) r else [] in
-      if hit then (k, v) :: rest else rest
+      let '(n, rest) := if i + 1 <? wrap64 (cursor + count) then hash_hscan_aux cursor count pat (i + 1) r
+                        else (i + 1, []) in
+      (n, if hit then (k, v) :: rest else rest)
   end.
-Definition hash_hscan (cursor : Z) (pat : bytes) (count : Z) (h : hashv) : list (bytes * bytes) :=
+Definition hash_hscan (cursor : Z) (pat : bytes) (count : Z) (h : hashv) : Z * list (bytes * bytes) :=
   hash_hscan_aux cursor count pat 0 h.
+(* one HSCAN call as the handler answers it: the position reached, or 0 when the walk ran off
+   the end of the hash (reached < cursor + count) *)
+Definition hscan_call (cursor : Z) (pat : bytes) (count : Z) (h : hashv) : Z * list (bytes * bytes) :=
+  let r := hash_hscan cursor pat count h in
+  ((if fst r <? wrap64 (cursor + count) then 0 else fst r), snd r).
